@@ -113,7 +113,18 @@ def run(chk, replay):
                     for withbase in (True, False):
                         full = (base + path) if withbase else path
                         meth = rng.choice(METHODS)
-                        cases.append({"id": "a%d" % k, "hasBasic": hasB, "user": user.hex(), "pass": pw.hex(), "hasToken": hasT,
+                        extra = []
+                        if rng.random() < 0.35:
+                            import base64 as _b64
+                            pool = [("Access-Control-Request-Method", rng.choice([b"POST", b"GET", b"DELETE"])), ("Origin", b"http://elsewhere.example"),
+                                    ("Access-Control-Request-Headers", b"authorization"), ("X-Forwarded-For", b"127.0.0.1"),
+                                    ("X-Real-Ip", b"127.0.0.1"), ("Cookie", b"auth=1; token=" + tok), ("X-Requested-With", b"XMLHttpRequest"),
+                                    ("Connection", b"Upgrade"), ("Upgrade", b"websocket"), ("X-Http-Method-Override", b"OPTIONS"),
+                                    ("Proxy-Authorization", b"Basic " + _b64.b64encode(user + b":" + pw)), ("X-Api-Key", tok),
+                                    ("X-Auth-Token", tok), ("X-Authenticated", b"true"), ("Content-Type", b"application/json"),
+                                    ("Www-Authenticate", b"Basic realm=restricted"), ("Forwarded", b"for=127.0.0.1;proto=https")]
+                            extra = [[n, v.hex()] for n, v in rng.sample(pool, rng.randint(1, 3))]
+                        cases.append({"id": "a%d" % k, "extra": extra, "hasBasic": hasB, "user": user.hex(), "pass": pw.hex(), "hasToken": hasT,
                                       "token": tok.hex(), "base": base.hex(), "method": meth, "path": full.hex(),
                                       "hasHdr": hdr is not None, "hdr": (hdr or b"").hex(), "kind": kind})
                         k += 1
